@@ -250,10 +250,15 @@ def dstep (st : DState) (toks : List String) : DState × List String :=
       ({ st with srv := some (init fmt (zeros w h)), mapped := mapped }, ["ok"])
     | _, _, _ => bad
   | none, _ => bad
-  | some s, ["client", i, nfs] =>
+  | some s, "client" :: i :: nfs :: rest =>
+    -- the optional encoding (raw | corre | zlib | ultra) does not change what the model predicts
+    let encOk := match rest with
+      | [] => true
+      | [e] => e == "raw" || e == "corre" || e == "zlib" || e == "ultra"
+      | _ => false
     match nat? i, nat? nfs with
     | some i, some nfs =>
-      if i ≥ 8 || st.cls.any (·.id == i) then bad else
+      if !encOk || i ≥ 8 || st.cls.any (·.id == i) then bad else
       let s1 := step s (.join i (nfs != 0))
       let d : DCl := { id := i, pend := Pend.add {} s.main.w (fullRect s), pic := some (zeros s.main.w s.main.h),
                        insync := true, pw := s.main.w, ph := s.main.h }
@@ -299,6 +304,62 @@ def dstep (st : DState) (toks : List String) : DState × List String :=
       | some _, some c => (st, [s!"cl {i} {c.sw}x{c.sh}" ++ (if isMain s c.sw c.sh then " self" else "")])
       | _, _ => bad
     | none => bad
+  | some s, ["newfb", w, h, seed] =>
+    -- rfbNewFramebuffer with a buffer of the same pixel format (outside the proved op set, see
+    -- Props/C17.lean "boundary with C16"; a same-size swap is a `draw` of the whole screen):
+    -- scaled screens keep their reduction (rfbScaledScreensNewFramebuffer), the used ones are
+    -- re-rendered, every client gets the whole new screen as modified region, NewFBSize clients a
+    -- pending size announcement
+    match nat? w, nat? h, nat? seed with
+    | some w, some h, some seed =>
+      if st.mapped || w < 1 || h < 1 || w > 4096 || h > 4096 then bad else
+      let mask := 2 ^ (8 * s.fmt.bpp)
+      let vals : Array Nat := Id.run do
+        let mut a : Array Nat := Array.mkEmpty (w * h)
+        let mut g := srand (UInt64.ofNat seed)
+        for _ in [0:w * h] do
+          let (r, g') := rnd g
+          g := g'
+          a := a.push ((r >>> 16).toNat % mask)
+        return a
+      let fb : Img := ⟨w, h, vals⟩
+      let oW := s.main.w
+      let oH := s.main.h
+      let full : Rect := ⟨0, 0, w, h⟩
+      let chain' := s.chain.map fun p =>
+        let nw := resizeDim p.w oW w
+        let nh := resizeDim p.h oH h
+        { p with w := nw, h := nh,
+                 img := if p.ref > 0 then updateRect s.fmt fb (zeros nw nh) full else zeros nw nh }
+      let clients' := s.clients.map fun c =>
+        if isMain s c.sw c.sh then { c with sw := w, sh := h, pending := c.pending || c.nfs }
+        else { c with sw := resizeDim c.sw oW w, sh := resizeDim c.sh oH h, pending := c.pending || c.nfs }
+      let dimsL := chain'.map fun p => (p.w, p.h)
+      let collide := dimsL.any (fun d => d == (w, h)) || dimsL.eraseDups.length != dimsL.length
+      let s' : Srv := { s with main := { s.main with w := w, h := h, img := fb }, chain := chain', clients := clients' }
+      let restride (p : Pend) : Pend :=
+        match p.shape with
+        | some R =>
+          let x2 := min (R.x + R.w) w
+          let y2 := min (R.y + R.h) h
+          if R.x < x2 && R.y < y2 then
+            let R' : Rect := ⟨R.x, R.y, x2 - R.x, y2 - R.y⟩
+            ⟨rectMask w R', some R'⟩
+          else {}
+        | none =>
+          if p.set == 0 then {} else
+          let cw := min oW w
+          let set' := Id.run do
+            let mut m := 0
+            for y in [0:min oH h] do
+              let row := (p.set >>> (y * oW)) &&& ((1 <<< cw) - 1)
+              m := m ||| (row <<< (y * w))
+            return m
+          ⟨set', none⟩
+      let cls := st.cls.map fun d =>
+        if d.live then { d with pend := Pend.add {} w full, rq := restride d.rq, insync := false } else d
+      ({ st with srv := some s', cls := cls }, [if collide then "newfb-collision" else "ok"])
+    | _, _, _ => bad
   | some s, ["draw", x, y, w, h, seed] =>
     match nat? x, nat? y, nat? w, nat? h, nat? seed with
     | some x, some y, some w, some h, some seed =>
